@@ -85,6 +85,14 @@ impl SimpleCycle {
     }
 }
 
+#[cfg(any(kani, meshless_voro_verif))]
+impl SimpleCycle {
+    /// Verification hook: a copy of the private state `(ptrs, start, len)`.
+    pub fn verif_state(&self) -> (Vec<usize>, usize, usize) {
+        (self.ptrs.clone(), self.start, self.len)
+    }
+}
+
 pub struct SimpleCycle2Iterator<'a> {
     simple_cycle: &'a SimpleCycle,
     next: usize,
